@@ -109,7 +109,8 @@ fn c13_k1_update_mods() {
     core::mem::forget(ovs);
 }
 
-// @harness name=c13_k1_update_keys prop=C13 tier=thorough timeout=3600
+// @harness name=c13_k1_update_keys prop=PARKED tier=thorough timeout=3600
+// @note does not finish (25 min in symbolic execution): FxHashMap construction and lookup even for a concrete 2-entry table
 // @encodes Overrides::new, Overrides::update_keys, Override::try_new, Override::get_mod_mask, add_override_keys, add_removed_keys
 // @bounds a concrete table of two overrides of the key a with NON-nested modifier sets: {lctl, lsft} a -> x and {lalt} a -> y; the set of currently held modifiers is a symbolic u8 mask
 // @assumes none beyond the bounds
